@@ -67,6 +67,10 @@ def roundtrip(ctx, sf, s, table, check_stereo, src, payload_extra=None, _again=F
     out = d[1]
     try:
         mout = read_smiles(out)
+        if has_long_percent_run(out) and compare_roundtrip(min_, mout, check_stereo=check_stereo) is not None:
+            # the text carries ring labels >= 100 (F1) and its standard reading ('%100' = label 10, then label 0) happens
+            # to be well formed: that reading is not what the writer meant - judge through the segmentation search
+            raise SmilesSyntaxError("standard reading of a text with ring labels >= 100", 0)
     except SmilesSyntaxError as e:
         mout = None
         if has_long_percent_run(out):
